@@ -61,6 +61,11 @@ pub enum Ret {
 }
 
 impl Ret {
+    /// a rejected `insert` / `try_insert`
+    pub fn is_rejection(&self) -> bool {
+        matches!(self, Ret::InsBig(..) | Ret::TryBig(..) | Ret::TryEvict(..) | Ret::TryOcc(..))
+    }
+
     pub fn text(&self) -> String {
         match self {
             Ret::Unit | Ret::Panicked => "unit".to_owned(),
